@@ -66,6 +66,31 @@ MAN = {
  ("C18", 32): ("not-in-property", "docker.io -> registry-1.docker.io host alias: requests go to another host name, no credential reaches a host it was not configured for"),
  ("C19", 278): ("equivalent", "slice not cleared after cleanup"),
  ("C20", 88): ("not-in-property", "layer reference not released when Mount fails after resolution (holder discipline of fs.Mount; no clause of C20)"),
+ # ---- round 2 (--anchors)
+ ("C01", 649): ("other-check", "db chunk lookup for 2-chunk files: errors are allowed by C01; ./check C02 (1) and ./check C05 (4) report it"),
+ ("C02", 167): ("other-check", "hardlink-to-directory guard of fix 588493d: malformed-TOC domain, ./check C04 reports it"),
+ ("C04", 114): ("not-in-property", "footer without the STARGZ magic accepted: accepting more inputs cannot crash; format conformance of the READER is no clause of C04"),
+ ("C06", 72): ("not-in-property", "ReadAt after Close()"),
+ ("C05", 371): ("equivalent", "every entry that needs a next offset already has its metadata entry on built blobs; a TOC where it has none is C04's malformed-input domain"),
+ ("C06", 268): ("config-default", "connectivity-check timeout applied even when 0"),
+ ("C06", 186): ("other-check", "was a MISS of C06: a short copy from the cache in copyFetchedChunks swallowed; the stress's cache wrapper now also truncates reads, ./check C06 reports it"),
+ ("C07", 198): ("equivalent", "size returned together with ENODATA is ignored"),
+ ("C11", 96): ("equivalent", "duplicate Add: the loser's buffer is not returned to the pool (allocation only)"),
+ ("C11", 41): ("not-in-property", "Get on a closed cache"),
+ ("C11", 83): ("equivalent", "fadvise hint"),
+ ("C13", 47): ("equivalent", "context cancel func not called after the body finished (timer leak until the timeout)"),
+ ("C13", 25): ("equivalent", "inner re-check `> 1`: falls through to the outer loop, which re-tests `> 0` (spins instead of blocking)"),
+ ("C15", 61): ("equivalent", "the TOC file is not an entry of the TOC; the skip never triggers on built blobs"),
+ ("C15", 75): ("equivalent", "extra iteration at nr == size ends at ChunkEntryForOffset's !ok"),
+ ("C15", 28): ("other-check", "TOC digest comparison of fix a094525: C01's domain (its seeded change A is that revert)"),
+ ("C15", 136): ("not-in-property", "Info().ReadTime only"),
+ ("C15", 151): ("other-check", "layer.Verify ignores the VerifyTOC error: ./check C01 reports it (2 violations)"),
+ ("C16", 83): ("equivalent", "value returned together with ENOENT is ignored"),
+ ("C18", 171): ("equivalent", "NewRequest already returns an empty header"),
+ ("C20", 111): ("not-in-property", "base inode number of the root node"),
+ ("C20", 92): ("not-in-property", "disable_verification ignored (stricter); C01's ladder"),
+ ("C20", 118): ("other-check", "mounted layer not registered: ./check C01 reports it"),
+ ("C20", 87): ("MISS", "successful fs.Mount releases its layer reference (mounted layer dies at TTL expiry): no check drives a successful fs.Mount with a real FUSE mount; an fs-level holder pass for C12 is being added (see DESIGN 11.7)"),
 }
 CFG = re.compile(r"^New[A-Z]|^new[A-Z]")
 out, lines = {}, []
